@@ -5,6 +5,9 @@ from harness import common as H
 from harness import legacy as L
 from vlib import fakes as F
 
+# private-attribute groups (vlib/layout.py) the obligations of this module depend on
+LAYOUT = ['manager', 'coord', 'task', 'bex', 'tasksem', 'sws'] + ['legacy']
+
 EXPLANATION = (
     'C15: oracle = input shapes of the installed botocore S3 service model (not the repo).  For every front end '
     '(manager upload / download / copy / delete, legacy S3Transfer upload / download) and mode (single, multipart / '
